@@ -160,10 +160,16 @@ package json
 // (C19) the diagnostics built here (duplicate / invalid object keys, where the key can be computed
 // from a marked value by interpolation) contain no string taken out of a value, unless the value
 // is known to carry no mark. Assumed, as for every Expression.Value: the result is not laundered.
+// (C17) evaluating a JSON expression writes nothing in the (shared) JSON tree: only the template
+// counter (ghost), splat iteration state of the native syntax nodes it creates and evaluates, and
+// memory it allocates itself - so concurrent evaluations of one tree cannot interfere.
 // verif:func (*expression).Value
 //@ nosafety
 //@ taint
-//@ props C13,C15,C06,C19
+//@ props C13,C15,C06,C19,C17
+// (it also appends to diagnostic lists and mark-set lists and builds cty values: those cells are
+// scratch memory of the evaluation, named here by type because an append may reuse spare capacity)
+//@ assigns tmplParses, allof(hclsyntax.AnonSymbolExpr.values), allmaps(hclsyntax.AnonSymbolExpr.values), allcells(ptr(hcl.Diagnostic)), allcells(cty.ValueMarks), allcells(cty.Value), allcells(cty.Type)
 //@ assumes notLaundered: !laundered(ret0)
 //@ ensures template: typeis(old(e.src), ptr(stringVal)) && ctx != nil ==> tmplParses == old(tmplParses) + 1
 //@ ensures verbatim: typeis(old(e.src), ptr(stringVal)) && ctx == nil ==> ret0 == strVal(old(unbox(e.src, ptr(stringVal)).Value)) && len(ret1) == 0
@@ -175,6 +181,8 @@ package json
 // exactly once, whatever it contains.
 // verif:func (*expression).Variables
 //@ nosafety
+//@ props C07,C17
+//@ assigns tmplParses, varsAsked, allcells(ptr(hcl.Diagnostic)), allcells(hcl.Traversal)
 //@ ensures template: typeis(old(e.src), ptr(stringVal)) ==> tmplParses == old(tmplParses) + 1
 
 // ---- the whole input is scanned (unit U3b, C13) ----
